@@ -1,8 +1,99 @@
-(* C03 — flank midpoints sit where the flank crosses its half-height. (theorems added as proved) *)
-From Coq Require Import List Arith Bool ZArith Floats.PrimFloat.
+(* C03 — flank midpoints sit where the flank crosses its half-height.
+   Model: Model/Zerox.v.  All statements are structural: the float comparisons are opaque
+   booleans, so they hold for every binary64 input (Print Assumptions lists only the
+   primitive float type and operations the model mentions). *)
+From Coq Require Import List Arith Bool ZArith Sorted Floats.PrimFloat.
 Import ListNotations.
-From ByC Require Import Base.Result Model.Zerox.
+From ByC Require Import Base.Result Base.ListAux Model.Zerox Proofs.Zerox.
 
-Theorem C03_placeholder_empty_extrema_rejected : forall sig t, find_zerox sig [] t = Err EIndex.
-Proof. reflexivity. Qed.
-Print Assumptions C03_placeholder_empty_extrema_rejected.
+(* one midpoint per flank, in temporal order: for p0 < t0 < p1 < t1 < ... decay k belongs to
+   the flank peak k -> trough k and rise k to the flank trough k -> peak k+1 *)
+Theorem C03_one_midpoint_per_flank_peak_first : forall sig peaks troughs,
+  interleaved peaks troughs -> peaks <> [] ->
+  Forall (fun z => (0 <= z < Z.of_nat (length sig))%Z) peaks ->
+  Forall (fun z => (0 <= z < Z.of_nat (length sig))%Z) troughs ->
+  exists rises decays, find_zerox sig peaks troughs = Ok (rises, decays) /\
+    length decays = length peaks /\ length rises = length peaks - 1 /\
+    (forall k, k < length peaks -> exists m, nth_error decays k = Some m /\
+        flank_mid false sig (nth k peaks 0%Z) (nth k troughs 0%Z) = Ok m) /\
+    (forall k, S k < length peaks -> exists m, nth_error rises k = Some m /\
+        flank_mid true sig (nth k troughs 0%Z) (nth (S k) peaks 0%Z) = Ok m).
+Proof. exact find_zerox_peak_first. Qed.
+Print Assumptions C03_one_midpoint_per_flank_peak_first.
+
+Theorem C03_one_midpoint_per_flank_trough_first : forall sig peaks troughs,
+  interleaved troughs peaks -> troughs <> [] ->
+  Forall (fun z => (0 <= z < Z.of_nat (length sig))%Z) peaks ->
+  Forall (fun z => (0 <= z < Z.of_nat (length sig))%Z) troughs ->
+  exists rises decays, find_zerox sig peaks troughs = Ok (rises, decays) /\
+    length rises = length troughs /\ length decays = length troughs - 1 /\
+    (forall k, k < length troughs -> exists m, nth_error rises k = Some m /\
+        flank_mid true sig (nth k troughs 0%Z) (nth k peaks 0%Z) = Ok m) /\
+    (forall k, S k < length troughs -> exists m, nth_error decays k = Some m /\
+        flank_mid false sig (nth k peaks 0%Z) (nth (S k) troughs 0%Z) = Ok m).
+Proof. exact find_zerox_trough_first. Qed.
+Print Assumptions C03_one_midpoint_per_flank_trough_first.
+
+(* the midpoint lies (inclusively) between the two extrema of its flank *)
+Theorem C03_midpoint_between_extrema : forall rise sig s e m,
+  flank_mid rise sig s e = Ok m -> (0 <= s <= e)%Z -> (e < Z.of_nat (length sig))%Z -> (s <= m <= e)%Z.
+Proof. exact flank_mid_between. Qed.
+Print Assumptions C03_midpoint_between_extrema.
+
+(* the definition: segment centre when the segment is identically zero or the flank is
+   inverted; otherwise the floor of the temporal median of ALL half-height crossings;
+   the centre again only if no sample pair straddles the level *)
+Theorem C03_midpoint_definition : forall rise sig s e m,
+  flank_mid rise sig s e = Ok m -> (0 <= s <= e)%Z -> (e < Z.of_nat (length sig))%Z ->
+  let seg := zslice sig s (e + 1) in
+  let x0 := nth 0 seg 0%float in let xl := last seg 0%float in
+  let c := (s + Z.of_nat (length seg / 2))%Z in
+  let mid := ((x0 + xl) / 2)%float in
+  let inverted := if rise then (xl <? x0)%float else (x0 <? xl)%float in
+  length seg = Z.to_nat (e - s + 1) /\
+  (all_zero seg = true -> m = c) /\
+  (all_zero seg = false -> inverted = true -> m = c) /\
+  (all_zero seg = false -> inverted = false -> level_crossings rise mid 0 seg = [] -> m = c) /\
+  (all_zero seg = false -> inverted = false -> level_crossings rise mid 0 seg <> [] ->
+     m = (s + Z.of_nat (median_floor (level_crossings rise mid 0 seg)))%Z).
+Proof. exact flank_mid_cases. Qed.
+Print Assumptions C03_midpoint_definition.
+
+(* the listed crossings are exactly the sample pairs straddling the level, in temporal order *)
+Theorem C03_crossings_are_exactly_the_level_crossings : forall rise mid k0 seg k,
+  In k (level_crossings rise mid k0 seg) <->
+  k0 <= k /\ S (k - k0) < length seg /\
+  on_start rise (nth (k - k0) seg 0%float) mid = true /\
+  on_start rise (nth (S (k - k0)) seg 0%float) mid = false.
+Proof. exact level_crossings_spec. Qed.
+Print Assumptions C03_crossings_are_exactly_the_level_crossings.
+
+Theorem C03_crossings_in_temporal_order : forall rise mid k0 seg,
+  StronglySorted lt (level_crossings rise mid k0 seg).
+Proof. exact level_crossings_sorted. Qed.
+Print Assumptions C03_crossings_in_temporal_order.
+
+Theorem C03_median_rounded_down_within_crossings : forall xs, StronglySorted lt xs ->
+  nth 0 xs 0 <= median_floor xs <= last xs 0.
+Proof. exact median_floor_sorted_lt_bounds. Qed.
+Print Assumptions C03_median_rounded_down_within_crossings.
+
+(* discrete intermediate value: a segment that starts on the near side of the level and ends
+   on the far side has a crossing *)
+Theorem C03_crossing_exists : forall rise mid seg, seg <> [] ->
+  on_start rise (hd 0%float seg) mid = true -> on_start rise (last seg 0%float) mid = false ->
+  level_crossings rise mid 0 seg <> [].
+Proof. exact level_crossings_exists. Qed.
+Print Assumptions C03_crossing_exists.
+
+(* midpoints in the pipeline's (peak-first) layout lie between the extrema they separate *)
+Theorem C03_ordering_peak_first : forall sig peaks troughs rises decays,
+  interleaved peaks troughs -> peaks <> [] ->
+  Forall (fun z => (0 <= z < Z.of_nat (length sig))%Z) peaks ->
+  Forall (fun z => (0 <= z < Z.of_nat (length sig))%Z) troughs ->
+  find_zerox sig peaks troughs = Ok (rises, decays) ->
+  length decays = length peaks /\ length rises = length peaks - 1 /\
+  (forall k, k < length peaks -> (nth k peaks 0 <= nth k decays 0 <= nth k troughs 0)%Z) /\
+  (forall k, S k < length peaks -> (nth k troughs 0 <= nth k rises 0 <= nth (S k) peaks 0)%Z).
+Proof. exact find_zerox_ordering. Qed.
+Print Assumptions C03_ordering_peak_first.
